@@ -46,6 +46,9 @@ type Control struct {
 	Restarts []uint32 `json:"restarts"` // clean stop + start after these heights
 	Wal      bool     `json:"wal"`
 	DumpAt   []uint32 `json:"dumpAt"` // heights at which the full canonical dump digest is recorded
+	API      bool     `json:"api"`    // start the real API server and record its answers
+	APIAt    []uint32 `json:"apiAt"`  // heights after which the API is queried (default: the tip)
+	AllHist  bool     `json:"allHist"`
 }
 
 type traceWriter struct {
@@ -113,12 +116,23 @@ func cmdRun(args []string) {
 		sched[k] = v
 	}
 	tw.emit(map[string]interface{}{"ev": "Start", "name": s.Name, "sched": sched, "avgPeriod": s.AvgPeriod,
-		"assets": s.Assets, "addrs": names, "keys": keyTypes, "tip": s.Tip, "start": config.PegnetActivation})
+		"assets": s.Assets, "addrs": names, "keys": keyTypes, "tip": s.Tip, "start": config.PegnetActivation, "allHist": ctl.AllHist})
 
 	if err := r.StartNode(); err != nil {
 		tw.emit(map[string]interface{}{"ev": "Refused", "err": err.Error()})
 		die(3, "start: %v", err)
 	}
+	if ctl.API {
+		if err := r.StartAPI(); err != nil {
+			die(70, "api: %v", err)
+		}
+	}
+	apiAt := map[uint32]bool{s.Tip: true}
+	for _, h := range ctl.APIAt {
+		apiAt[h] = true
+	}
+	var seenHashes []string
+	seenHash := map[string]bool{}
 	restart := map[uint32]bool{}
 	for _, h := range ctl.Restarts {
 		restart[h] = true
@@ -152,7 +166,28 @@ func cmdRun(args []string) {
 				}
 				o.Dump = proj.TableDigests(d)
 			}
-			tw.emit(map[string]interface{}{"ev": "Block", "h": h, "in": c.In[h], "obs": o})
+			ev := map[string]interface{}{"ev": "Block", "h": h, "in": c.In[h], "obs": o}
+			for _, e := range c.In[h].Entries {
+				if !seenHash[e.Hash] {
+					seenHash[e.Hash] = true
+					seenHashes = append(seenHashes, e.Hash)
+				}
+			}
+			if ctl.API && apiAt[h] {
+				var addrs []string
+				for n := range s.Keys {
+					addrs = append(addrs, n)
+				}
+				addrs = append(addrs, "M1", "M2", "BURN")
+				var hs []uint32
+				for x := config.PegnetActivation + 1; x <= h; x++ {
+					if in := c.In[x]; len(in.Entries) > 0 || in.OPR.Present {
+						hs = append(hs, x)
+					}
+				}
+				ev["api"] = r.ObserveAPI(h, seenHashes, addrs, hs)
+			}
+			tw.emit(ev)
 		}
 		if restart[h] {
 			if err := r.StopNode(); err != nil {
